@@ -1,4 +1,6 @@
 import Orca.Model.Custom
+import Orca.Gen.ApiOutline
+import Orca.Model.ApiOutlineSpec
 /-!
 # C28 — custom sections are preserved and edited exactly
 
@@ -119,3 +121,15 @@ example :
   decide
 
 end Orca.Custom
+
+/-- **The tie to the source (regenerated on every run).** The six functions of `CustomSections` (src/ir/types.rs) that M8 transcribes,
+    taken word for word (white space normalised): their whole content is a bounds comparison and a vector operation each, so a skeleton of
+    calls would not see `<` turned into `<=` or `remove` into `swap_remove`. Any change to their text breaks this obligation. -/
+theorem c28_custom_sections_code_reviewed :
+    Orca.Gen.ApiOutline.custom_new = Orca.ApiOutlineSpec.custom_new
+    ∧ Orca.Gen.ApiOutline.custom_get_id = Orca.ApiOutlineSpec.custom_get_id
+    ∧ Orca.Gen.ApiOutline.custom_get_by_id = Orca.ApiOutlineSpec.custom_get_by_id
+    ∧ Orca.Gen.ApiOutline.custom_delete = Orca.ApiOutlineSpec.custom_delete
+    ∧ Orca.Gen.ApiOutline.custom_get_section_data_mut = Orca.ApiOutlineSpec.custom_get_section_data_mut
+    ∧ Orca.Gen.ApiOutline.custom_add = Orca.ApiOutlineSpec.custom_add :=
+  ⟨rfl, rfl, rfl, rfl, rfl, rfl⟩
